@@ -69,6 +69,45 @@ pub fn first_diff(got: &[(usize, Vec<u8>)], want: &[(usize, Vec<u8>)]) -> String
     "equal".into()
 }
 
+/// A decoder for (k, r, size) that has a past: it was constructed for another
+/// configuration (often a larger one), maybe received a few shards of an
+/// abandoned round, and then got here by reset or by handing its working space
+/// to a new decoder.
+fn preused_decoder(
+    rng: &mut Rng,
+    api: Api,
+    rate: RateKind,
+    k: usize,
+    r: usize,
+    size: usize,
+) -> Result<Box<dyn codec::DynDec>, reed_solomon_simd::Error> {
+    let class = *rng.pick(&[Class::Tiny, Class::Small, Class::Edge, Class::Medium]);
+    let (k0, r0) = gen::config(rng, class, rate);
+    let size0 = *rng.pick(&[2usize, 64, 66, 130]);
+    let mut dec = codec::make_dec(api, k0, r0, size0, None)?;
+    if rng.chance(1, 2) {
+        for i in 0..rng.below(k0.min(4) + 1) {
+            let junk = rng.bytes(size0);
+            dec.add_original(i, &junk)?;
+        }
+        if rng.chance(1, 2) {
+            let junk = rng.bytes(size0);
+            dec.add_recovery(r0 - 1, &junk)?;
+        }
+    }
+    match api {
+        Api::Rate(_, eng) if rng.chance(1, 2) => {
+            let work = dec.into_work();
+            let _ = eng;
+            codec::make_dec(api, k, r, size, work)
+        }
+        _ => {
+            dec.reset(k, r, size)?;
+            Ok(dec)
+        }
+    }
+}
+
 fn one_case(rng: &mut Rng, class: Class, out: &mut CaseOut) {
     let rate = gen::rate(rng);
     let (k, r) = gen::config(rng, class, rate);
@@ -120,9 +159,16 @@ fn one_case(rng: &mut Rng, class: Class, out: &mut CaseOut) {
         );
         out.evals += 1;
         // streaming
-        let got = codec::make_dec(dec_api, k, r, size, None).and_then(|mut dec| {
-            codec::decode_round(dec.as_mut(), &order, &originals, &recovery, &[])
-        });
+        // "a decoder of the same configuration": fresh, or one that reached
+        // this configuration by reset / taking over another decoder's working space
+        let preused = rng.chance(1, 2);
+        let got = if preused {
+            preused_decoder(rng, dec_api, rate, k, r, size)
+        } else {
+            codec::make_dec(dec_api, k, r, size, None)
+        }
+        .and_then(|mut dec| codec::decode_round(dec.as_mut(), &order, &originals, &recovery, &[]));
+        out.tag(if preused { "decoder:pre-used" } else { "decoder:fresh" });
         match got {
             Err(e) => out.violate(
                 format!("C01:decode-err:{}", codec::err_name(&e)),
